@@ -68,6 +68,11 @@ def _needs_quote(name: str) -> bool:
 	return False
 
 
+# Marks the "..." row of a truncated preview (compared by identity: an element may be
+# a Vector, whose == is element-wise and has no truth value)
+_ELLIPSIS = object()
+
+
 def _format_column(col, max_preview: int | None = None) -> List[str]:
 	"""Returns a list of strings representing that column, truncated for display."""
 	# Use global default if not specified
@@ -78,14 +83,14 @@ def _format_column(col, max_preview: int | None = None) -> List[str]:
 	vals = col._underlying
 	if len(vals) > max_preview * 2:
 		# (vals[-0:] would be the whole column: slice the tail from an explicit start)
-		preview = list(vals[:max_preview]) + ['...'] + list(vals[len(vals) - max_preview:])
+		preview = list(vals[:max_preview]) + [_ELLIPSIS] + list(vals[len(vals) - max_preview:])
 	else:
 		preview = list(vals)
 
 	# Type-sensitive formatting
 	out = []
 	for v in preview:
-		if v == '...':
+		if v is _ELLIPSIS:
 			out.append('...')
 		elif v is None:
 			out.append('None')
